@@ -17,7 +17,7 @@ func C16_writer_sticky() {
 		dst := &vDst{failAt: -1}
 		w := vMkWriter(dst, server, bufLen, op)
 		w.n = vChoose("n", bufLen+1)
-		w.fseq = vChoose("fseq", 2)
+		vSetIntLike(&w.fseq, vChoose("fseq", 2))
 		w.dirty = vBool("dirty")
 		w.noFlush = vBool("noflush")
 		w.err = vErrDst
